@@ -579,6 +579,7 @@ type cutServer struct {
 	bare    bool // error responses without a body (Content-Length: 0)
 	etag    string // when set: sent as ETag on every 200/206 and answered to HEAD requests (the cache's index path)
 	refuse  int    // the first `refuse` GET requests are answered 503 (with or without a body, see bare)
+	atCut      func() // called when a connection is about to be cut: its bytes are flushed, it is still open
 	goodRanges int // when > 0: Range requests beyond the first goodRanges ones are answered 403 (a resumption refused after k good ones)
 	rangeSeen  int
 	// what happened, for the expectations handed to Coq
@@ -692,6 +693,9 @@ func (s *cutServer) ServeHTTP(w http.ResponseWriter, r *http.Request) {
 			s.unframed = true
 		}
 		s.mu.Unlock()
+		if s.atCut != nil {
+			s.atCut()
+		}
 		if !s.fin {
 			if tc, ok := conn.(*net.TCPConn); ok {
 				tc.SetLinger(0) // RST, so the client sees an error rather than a clean close
